@@ -4,6 +4,7 @@
 From Coq Require Import List NArith Bool String Ascii.
 Import ListNotations.
 Open Scope N_scope.
+Delimit Scope string_scope with string.
 
 Definition char := N.
 Definition str := list char.
